@@ -147,6 +147,7 @@ def set_mounts(w, ps, inp):
     w.files[pf + "/self/mounts"] = table
     fs = render_filesystems(inp["fst"])
     w.files[pf + "/filesystems"] = fs
+    w.links[pf + "/mounts"] = "self/mounts"       # fs/proc/root.c: /proc/mounts -> self/mounts
     if pf != "/proc":
         # the live /proc of the caller: another mount table (PROCFS_PATH must be honoured)
         w.files["/proc/self/mounts"] = decoy
@@ -166,10 +167,10 @@ def set_mounts(w, ps, inp):
     name = r["path"][len("/dev/"):]
     noise = [(maj, mi + 1, 1000, "xx%dn" % mi), (maj + 1, mi, 1001, "yy%dn" % mi), (7, 0, 8, "loop0")]
     if r["parts"] != "absent":
-        rows = list(noise[:2])
+        rows = list(noise)
         if r["parts"] == "match":
-            rows.append((maj, mi, 524288, name))
-        rows.append(noise[2])
+            # first, in the middle or last line of the table, depending on the device
+            rows.insert((maj + mi + 3) % 4, (maj, mi, 524288, name))
         for p in {pf, "/proc"}:
             w.files[p + "/partitions"] = render_partitions(rows)
     if r["uevent"] != "absent":
